@@ -493,9 +493,9 @@ def c07(ctx):
     mc.join()
     ctx.rule = ("%d random generalized datasets (<=4 blank nodes anywhere: subject, predicate, object, graph name, inside quoted triples nested to depth 2; <=5 quads), each compared with itself, "
                 "a relabelled+shuffled copy (fresh labels or a permutation of its own) and 8 kinds of one-step mutants (quad removed / added, a ground term replaced, a ground term changed in ONE detail - language tag, datatype, lexical form, last character of an IRI, also inside quoted triples -, graph name moved, blank nodes merged / split), "
-                "over 5 container pairs in both argument orders; default-graph-only pairs also as graphs: Vec / HashSet, a named-graph view and a partial-union view of a larger dataset (loose size hints), a graph wrapped as a dataset; "
+                "over 5 container pairs in both argument orders; default-graph-only pairs also as graphs: Vec / HashSet, a named-graph view and a partial-union view of a larger dataset (loose size hints), a partial-union view yielding shared triples twice, a Vec holding a statement twice, a graph wrapped as a dataset; "
                 "TLC decides isomorphism by brute force over all blank-node bijections (Iso.tla). distinct = distinct (d1,d2) pairs other than self" % n)
-    ctx.assumptions += ["non-isomorphic pairs that pass the cheap filters are not judged (documented incompleteness of the algorithm)", "containers hold each statement once (the Graph / Dataset traits allow duplicates; isomorphism counts them)"]
+    ctx.assumptions += ["non-isomorphic pairs that pass the cheap filters are not judged (documented incompleteness of the algorithm)"]
 
 
 def c03(ctx):
